@@ -287,6 +287,15 @@ def enumerate_changes(M, d):
                 yield tuple((M[i][0], v) for i, v in zip(dims, vals))
 
 
+def _aliasing_in_child():
+    """Run _aliasing_work in a forked child so that a leak cannot reach the
+    rest of this check."""
+    import multiprocessing
+    ctx = multiprocessing.get_context("fork")
+    with ctx.Pool(1) as pool:
+        return pool.apply(_aliasing_work, (0,))
+
+
 def run_validation(res, tier):
     M = menus()
     d = 2 if tier == "quick" else 3
@@ -314,7 +323,78 @@ def run_validation(res, tier):
                               {"part": "validate", "changes": labels})
     res.section("validation", objects=n, dimensions=len(M),
                 menu_values=sum(len(m[1]) for m in M), bound=d)
-    return n
+    (na, afails), = pmap(_aliasing_work, [0, ], chunksize=1) if False else \
+        [_aliasing_in_child()]
+    res.count(na)
+    res.outcome(("alias", not afails))
+    for f in afails:
+        res.violation({"part": "aliasing", "kind": f[0],
+                       "attr": f[1].split("/")[0].split(":")[0]},
+                      {"failure": f}, {"part": "aliasing", "failure": f})
+    res.section("mutable_state_isolation", probes=na)
+    return n + na
+
+
+def _aliasing_work(_item):
+    """Isolation of mutable state (run in a worker process of its own: with
+    a defect the in-place edits below would leak into module-level state).
+
+    (a) every list held by a fresh HandshakeSettings() is private to that
+        object: editing it in place changes neither later default objects,
+        nor what validate() accepts.
+    (That the object returned by validate() shares list objects with its
+    receiver is not held against the library: the property speaks of
+    validate() modifying its receiver, which it does not.)"""
+    import copy
+    from tlslite.handshakesettings import HandshakeSettings
+    fails = []
+    n = 0
+    s0 = HandshakeSettings()
+    names = sorted(a for a, v in vars(s0).items() if isinstance(v, list))
+    pristine = dict((a, copy.deepcopy(getattr(s0, a))) for a in names)
+    for a in names:
+        s1 = HandshakeSettings()
+        lst = getattr(s1, a)
+        junk = "verif-junk-value"
+        # in-place edits a caller may make
+        for edit in ("append", "remove-first", "reverse", "clear"):
+            s1 = HandshakeSettings()
+            lst = getattr(s1, a)
+            if edit == "append":
+                lst.append(junk)
+            elif edit == "remove-first":
+                if not lst:
+                    continue
+                del lst[0]
+            elif edit == "reverse":
+                lst.reverse()
+            else:
+                del lst[:]
+            n += 1
+            s2 = HandshakeSettings()
+            if getattr(s2, a) != pristine[a]:
+                fails.append(("default-changed-by-editing-another-object",
+                              "%s/%s" % (a, edit)))
+                # repair so that the remaining probes start clean
+                getattr(s2, a)[:] = pristine[a]
+            try:
+                HandshakeSettings().validate()
+            except Exception as e:  # noqa
+                fails.append(("default-object-invalid-after-edit",
+                              "%s/%s: %s" % (a, edit, type(e).__name__)))
+            if edit == "append" and isinstance(pristine[a][:1] and
+                                               pristine[a][0], str):
+                s3 = HandshakeSettings()
+                setattr(s3, a, list(pristine[a]) + [junk])
+                try:
+                    s3.validate()
+                    fails.append(("junk-value-accepted-after-edit", a))
+                except ValueError:
+                    pass
+                except Exception as e:  # noqa
+                    fails.append(("junk-value-raises", "%s: %s" % (
+                        a, type(e).__name__)))
+    return n, fails
 
 
 # ---------------------------------------------------------------- connection
